@@ -13,11 +13,23 @@ EINVAL = 22
 
 
 def details(F):
+    """rows of the DETAILS table as (number, name, default kind); the fields are told apart by the kind of value they hold"""
     c = F.const("signal_hook::low_level::signal_details::DETAILS")
     rows = []
     for r in c["val"] or []:
-        f = dict((k, v) for k, v in r["fields"])
-        rows.append((f["signal"], f["name"], f["default_kind"]["variant"]))
+        num = name = kind = None
+        for k, v in r["fields"]:
+            if isinstance(v, bool):
+                continue
+            if isinstance(v, int):
+                num = v
+            elif isinstance(v, str):
+                name = v
+            elif isinstance(v, dict) and "variant" in v:
+                kind = v["variant"]
+        if num is None or name is None or kind is None:
+            raise AnchorLost("DETAILS row not decoded: %s" % r)
+        rows.append((num, name, kind))
     if len(rows) < 20:
         raise AnchorLost("DETAILS table decoded to %d rows" % len(rows))
     return rows
@@ -50,8 +62,13 @@ def rule_b(ctx):
     rid = "C16.b"
     ctx.rule(rid, "terminate path: restore SIG_DFL -> unblock that signal -> raise(signal), in that order, never returning (abort); stop path raises "
                   "SIGSTOP; ignore path has no effect; the unknown-signal error precedes every effect", floor=8)
-    m = F.one("signal_hook::low_level::signal_details::emulate_default_handler")
-    ctx.fn(m)
+    m0 = F.one("signal_hook::low_level::signal_details::emulate_default_handler")
+    ctx.fn(m0)
+    # normal form: private helpers inlined, except the function(s) making the sigaction call (the "restore" step is judged as a call whose
+    # Result gates the re-raise) and the public raise()
+    from .nf import NF
+    restorers = [i for i in Cone(F, [m0]).members if i.local and i.body is not None and i.id != m0.id and call_sites(F, i, foreign("sigaction"))]
+    m = NF(F, m0, vocab=[re.escape(i.name) + "$" for i in restorers] or None)
     fl = flow(m)
     kind_adt = F.adt("signal_hook::low_level::signal_details::DefaultKind")
     vidx = {v["name"]: i for i, v in enumerate(kind_adt["variants"])}
@@ -59,7 +76,7 @@ def rule_b(ctx):
     sw = None
     for b in range(m.nblocks()):
         t = m.term(b)
-        if t["k"] == "switch" and "DefaultKind" in "".join(m.local_ty(l) for l in [_discr_local(m, b)] if l is not None):
+        if t["k"] == "switch" and not m.blocks[b].get("dead") and "DefaultKind" in (_discr_ty(m, b) or ""):
             sw = b
     if sw is None:
         raise AnchorLost("branch on DefaultKind in emulate_default_handler")
@@ -89,7 +106,7 @@ def rule_b(ctx):
     raises = [(b, t, c) for b, t, c in eff if c.symbol == "raise" or (c.local and any(i.symbol == "raise" for i, _, _ in Cone(F, [c]).of_class("SAFE_FFI")))]
     aborts = [(b, t, c) for b, t, c in eff if c.symbol == "abort"]
     okk = len(restore) == 1 and len(unblock) == 1 and len(raises) == 1 and len(aborts) >= 1
-    ctx.check(okk, rid, "term:steps", "terminate path has one restore, one unblock, one raise and an abort", m.span,
+    ctx.check(okk, rid, "term:steps", "terminate path has one restore, one unblock, one raise and an abort", m0.span,
               {"restore": len(restore), "unblock": len(unblock), "raise": len(raises), "abort": len(aborts)})
     if okk:
         dom = cfg.dominators(m)
@@ -111,21 +128,16 @@ def rule_b(ctx):
         ctx.check(sig_ok, rid, "term:same-signal", "restore and raise use the function's own signal argument", raises[0][1]["sp"], None)
         how = [fold(e) for e in fl.term_arg(ub, 0)]
         ctx.check(how == [SIG_UNBLOCK], rid, "term:unblock-how", "sigprocmask is called with SIG_UNBLOCK", unblock[0][1]["sp"], how)
-        # the set is built from the same signal: a workspace helper called between restore and unblock that reaches sigemptyset+sigaddset(param)
+        # the set is built from the same signal: sigemptyset + sigaddset(set, signal) between restore and unblock, on the set handed to sigprocmask
         set_ok = False
-        for b in sorted(term_r):
-            t = m.term(b)
-            if t["k"] == "call" and t.get("f") is not None:
-                c = F.inst[t["f"]]
-                if c.local and c.body is not None:
-                    syms = {i.symbol for i, _, _ in Cone(F, [c]).of_class("SAFE_FFI")}
-                    if {"sigemptyset", "sigaddset"} <= syms:
-                        a1 = [deep_strip(e) for e in fl.term_arg(b, 1)]
-                        same_set = deps(m, fl.term_arg(b, 0)) & deps(m, fl.term_arg(ub, 1))
-                        inner_ok = all([deep_strip(e) for e in flow(c).term_arg(bb2, 1)] == [("param", 2)]
-                                       for bb2, t2, c2 in call_sites(F, c, foreign("sigaddset")))
-                        if a1 == [("param", 1)] and b in dom[ub] and rb in dom[b] and inner_ok:
-                            set_ok = True
+        adds = [(b, t) for b, t, c in eff if c.symbol == "sigaddset"]
+        empt = [(b, t) for b, t, c in eff if c.symbol == "sigemptyset"]
+        setp = deps(m, fl.term_arg(ub, 1), follow=lambda d: False)
+        for (ab, at) in adds:
+            a1 = [deep_strip(e) for e in fl.term_arg(ab, 1)]
+            same_set = bool(deps(m, fl.term_arg(ab, 0), follow=lambda d: False) & setp)
+            if a1 == [("param", 1)] and ab in dom[ub] and rb in dom[ab] and same_set and any(eb in dom[ab] for eb, _ in empt):
+                set_ok = True
         ctx.check(set_ok, rid, "term:set-from-signal", "the unblocked set is {signal}: built by sigemptyset + sigaddset(signal) between restore and unblock", unblock[0][1]["sp"], None)
         never = not (cfg.reachable_after(m, rb, unwind=False) & set(m.exits()))
         ctx.check(never, rid, "term:never-returns", "after the restore no path returns (abort is the fallback on every path)", restore[0][1]["sp"], None)
@@ -194,6 +206,19 @@ def _early_known(m, b):
                 return False
             st.append(p)
     return True
+
+
+def _discr_ty(m, b):
+    """type of the place whose discriminant the switch at b examines (`discr(_n)` or `discr((*_n).field)`)"""
+    for s in m.stmts(b):
+        if s["k"] == "assign" and s["r"]["k"] == "discr":
+            pl = s["r"]["p"]
+            fields = [p for p in pl["p"] if p["k"] == "field"]
+            if fields:
+                return fields[-1].get("t")
+            if not pl["p"]:
+                return m.local_ty(pl["l"])
+    return None
 
 
 def _discr_local(m, b):
@@ -306,7 +331,39 @@ def rule_c(ctx):
     ctx.check(not tr2, rid, "signal_name-only-compared", "signal_name only compares the signal number", n.span, tr2[:6])
 
 
+def rule_d(ctx):
+    """a signal known by name has an emulation: the name lookup and the default-kind lookup read the same table"""
+    F = ctx.F
+    rid = "C16.d"
+    ctx.rule(rid, "signal_name answers from the DETAILS table only (every name it can return is a field of a DETAILS row), and the default kind used by the "
+                  "emulation comes from a row of the same table: no second source of 'known' signals", floor=2)
+    from .nf import NF
+    DET = "signal_hook::low_level::signal_details::DETAILS"
+    for fname, what in (("signal_hook::low_level::signal_details::signal_name", "name"), ("signal_hook::low_level::signal_details::emulate_default_handler", "default kind")):
+        m0 = F.one(fname)
+        m = NF(F, m0)
+        fl = flow(m)
+        if what == "name":
+            vals = [e for rb in m.exits() for e in fl.place({"l": 0, "p": []}, (rb, len(m.stmts(rb))))]
+        else:
+            sw = [b for b in range(m.nblocks()) if m.term(b)["k"] == "switch" and not m.blocks[b].get("dead") and "DefaultKind" in (_discr_ty(m, b) or "")]
+            if not sw:
+                raise AnchorLost("branch on DefaultKind")
+            vals = [e for b in sw for e in fl.term_operand(b, m.term(b)["d"])]
+        d = deps(m, vals)
+        consts = {(x[2] or "") for x in d if x[0] == "const" and x[2]}
+        tables = {c for c in consts if c.startswith("signal_hook::") and c != DET and not c.split("::")[-1] in ("EINVAL",)}
+        # string literals are constants without a definition path: found in the values themselves
+        lits = []
+        for e in vals:
+            mentions(e, lambda x: lits.append(x) or False if (x[0] == "const" and x[2] is None and (x[3] or "").startswith("&") and "str" in (x[3] or "")) else False)
+        ctx.check(DET in consts and not tables and not lits, rid, "%s-from-DETAILS" % what.replace(" ", "-"),
+                  "the %s %s yields is read out of a DETAILS row" % (what, fname.split("::")[-1]), m0.span,
+                  {"tables_consulted": sorted(consts), "other_tables": sorted(tables), "string_literals": [show(x) for x in lits][:4]})
+
+
 def run(ctx):
+    ctx.guarded("C16.d", rule_d)
     ctx.guarded("C16.c", rule_c)
     ctx.guarded("C16.a", rule_a)
     ctx.guarded("C16.b", rule_b)
